@@ -338,7 +338,7 @@ class TrajectorySH:
         if dE > 0.0:
             return True
         u = direction / np.linalg.norm(direction)
-        a = np.einsum('m,m,m', np.reciprocal(self.mass), u, u)
+        a = np.einsum('m,m,m', 1.0 / self.mass, u, u)
         b = 2.0 * np.dot(self.velocity, u)
         c = -2.0 * dE
         return b * b > 4.0 * a * c
